@@ -471,16 +471,26 @@ def build_func(unit, f, grws):
 
     # insertions into body: (offset, text, tmpl_line)
     ins = []
+    reshaped = False
     if f.loops:
         lps = loops_in(toks, body_open + 1, body_close)
-        for k, lines in f.loops.items():
-            if k < 1 or k > len(lps):
-                raise ExtractError('%s: loop #%d not found (function has %d loops)' % (where, k, len(lps)))
-            ins.append((toks[lps[k - 1][1]].start, '\n'.join(l for l, _ in lines), lines[0][1]))
+        if len(lps) == 0 and f.kind == 'fn':
+            # R-reshape: the function has no loop any more.  A loop-free body needs no invariant: the loop annotations
+            # (and the hints whose anchors are gone) are dropped and the body is checked against the same contract.
+            reshaped = True
+            unit.dropped.append('%s: R-reshape: the function has no loops now; %d loop annotation(s) dropped, the contract is unchanged' % (where, len(f.loops)))
+            unit.rule_counts['R-reshape'] = unit.rule_counts.get('R-reshape', 0) + 1
+        else:
+            for k, lines in f.loops.items():
+                if k < 1 or k > len(lps):
+                    raise ExtractError('%s: loop #%d not found (function has %d loops)' % (where, k, len(lps)))
+                ins.append((toks[lps[k - 1][1]].start, '\n'.join(l for l, _ in lines), lines[0][1]))
         f.n_loops = len(lps)
     for pos, rx, lines in f.hints:
         m = list(re.finditer(rx, body, re.M))
         if len(m) < 1:
+            if reshaped:
+                continue
             raise ExtractError('%s: hint anchor %r not found' % (where, rx))
         m = m[0]
         if pos == 'before':
